@@ -1153,6 +1153,9 @@ class SCFGIO:
         for b in sorted(blocks):
             ys += indent(f"'{b}':\n", " " * 8)
             for k, v in blocks[b].items():
+                # Quote strings, a name such as '0' must not be read back as
+                # a number.
+                v = repr(v) if isinstance(v, str) else v
                 ys += indent(f"{k}: {v}\n", " " * 12)
 
         ys += "\nedges:\n"
